@@ -1647,7 +1647,7 @@ func (w *world) migrate(fromID int, fromAddr sdk.AccAddress, to *actor, signer i
 			_, err := w.s.App.MsgServiceRouter().Handler(msg)(dry, msg)
 			return err
 		}) == "ok" {
-			laterA = w.laterScript(w.s.Ctx, fromAddr, cfSlash, cfFrac)
+			laterA = w.laterScript(w.s.Ctx, fromAddr, to.addr, cfSlash, cfFrac)
 		}
 	}
 	raw := w.exec(msg)
@@ -1837,7 +1837,7 @@ func (w *world) migrate(fromID int, fromAddr sdk.AccAddress, to *actor, signer i
 	w.invariants("after migration")
 	w.consistency("after migration")
 	if laterA != nil {
-		w.counterfactual(laterA, w.laterScript(w.s.Ctx, to.addr, cfSlash, cfFrac), pt.bal, cfSlash, spellName)
+		w.counterfactual(laterA, w.laterScript(w.s.Ctx, to.addr, fromAddr, cfSlash, cfFrac), pt.bal, cfSlash, spellName)
 	}
 	return res
 }
@@ -2523,10 +2523,19 @@ func (w *world) slashVal(ctx sdk.Context, vi int, infraction int64, frac string)
 // The script — reward withdrawals, a partial undelegation, a redelegation, optionally a slash of validators 0 and 2 between
 // migration and maturity, the staking end blocker at four later times, a full undelegation, the end blocker after the
 // unbonding time — must be answered alike step by step, and after every step both must hold and have received the same.
-// (Delegator-withdraw-address settings are not migrated: the actor's is reset to the default first.)
-func (w *world) laterScript(base sdk.Context, who sdk.AccAddress, slash bool, frac string) []string {
+// (Delegator-withdraw-address settings are not migrated: the actor's, and any third party's that names source or target,
+// are reset to the default first.)
+func (w *world) laterScript(base sdk.Context, who, other sdk.AccAddress, slash bool, frac string) []string {
 	ctx, _ := base.CacheContext()
 	must(w.s.App.DistrKeeper.SetDelegatorWithdrawAddr(ctx, who, who))
+	// a third party's withdraw-address setting that names the source or the target is that party's setting (not migrated,
+	// not part of the portfolio): a slash unbonds third parties' redelegated stake and thereby pays THEIR rewards to it
+	for _, kv := range hx.RawPrefix(ctx, w.s.App.GetKey(distrtypes.StoreKey), distrtypes.DelegatorWithdrawAddrPrefix) {
+		if bytes.Equal(kv[1], who) || bytes.Equal(kv[1], other) {
+			d := sdk.AccAddress(distrtypes.GetDelegatorWithdrawInfoAddress(kv[0]))
+			must(w.s.App.DistrKeeper.SetDelegatorWithdrawAddr(ctx, d, d))
+		}
+	}
 	start := w.s.App.BankKeeper.GetAllBalances(ctx, who)
 	var log []string
 	execOn := func(msg sdk.Msg) string {
